@@ -200,7 +200,7 @@ type c07RegCase struct {
 func c07Pool() []any {
 	return []any{
 		scen.BuildInst(scen.Inst{Typ: "TA", Name: "x"}, 0),
-		scen.BuildInst(scen.Inst{Typ: "TB", Name: "x"}, 1),                   // custom names collide
+		scen.BuildInst(scen.Inst{Typ: "TB", Name: "x"}, 1),                    // custom names collide
 		scen.BuildInst(scen.Inst{Typ: "TD"}, 2),                               // default name
 		scen.BuildInst(scen.Inst{Typ: "TA", Name: scen.DefaultName("TD")}, 3), // custom = another type's default name
 		scen.BuildInst(scen.Inst{Typ: "TD"}, 4),                               // second default-named instance of one type
